@@ -33,7 +33,7 @@
  *   F  a File (tmp file under /dev/shm or $PWD) holding <old>[0..start)
  * and prints
  *   O W exc=<e> pos=<p> calls=<frag:val;...> str=<bytes>
- *   O S exc=<e> pos=<p> str=<bytes>
+ *   O S exc=<e> pos=<p> str=<bytes> cap=<allocated size of the String's block (pointer renderings counted as 3 characters)>
  *   O F exc=<e> pos=<p> out=<bytes>
  * where the text libc prints for an object pointer (%p) is replaced by `<P>` and positions are corrected accordingly.
  * Direct oracle (X lines): expected text = concatenation over the reference segments of: the literal, `%`, libc's own
@@ -330,6 +330,20 @@ static int ref_spec(const char* spec, const SegD* g, ArgD* a, Buf* out) {
 /* ------------------------------------------------------------------ the recording sink */
 struct RecSink { var inner; };
 typedef struct { char* frag; char vk; /* n s i d p */ int64_t i; uint64_t bits; char* s; int pos, ret; unsigned char* out; } CallD;
+/* allocated size of the heap block at p: the size that was asked of malloc / realloc, as ASan's allocator recorded it (probing for the first
+   poisoned byte is not reliable: a chunk whose size and redzone fill their size class exactly has no poisoned slack behind it) */
+#if defined(__has_feature)
+#if __has_feature(address_sanitizer)
+#define H_FMT_ASAN 1
+#endif
+#endif
+#ifdef H_FMT_ASAN
+size_t __sanitizer_get_allocated_size(const volatile void* p);
+static long block_size(const char* p) { return p ? (long)__sanitizer_get_allocated_size(p) : 0; }
+#else
+static long block_size(const char* p) { return p ? (long)strlen(p) + 1 : 0; }
+#endif
+static size_t n_grow = 0, n_shrink = 0, n_keep = 0, n_empty = 0, n_cap = 0; static long max_piece = 0;   /* realloc branches of String_Format_To, per accepted call */
 static CallD* rec_calls = NULL; static size_t rec_n = 0, rec_cap = 0;
 static void rec_clear(void) {
   for (size_t k = 0; k < rec_n; k++) { free(rec_calls[k].frag); free(rec_calls[k].s); free(rec_calls[k].out); }
@@ -349,7 +363,14 @@ static int Rec_Format_To(var self, int pos, const char* fmt, va_list va) {
     else if (k == 'p') { c->vk = 'p'; (void)va_arg(vc, void*); }
     va_end(vc);
   }
+  long before = block_size(((struct String*)r->inner)->val);
   int ret = format_to_va(r->inner, pos, fmt, va);
+  if (ret >= 0) {
+    long after = block_size(((struct String*)r->inner)->val);
+    if (after > before) n_grow++; else if (after < before) n_shrink++; else n_keep++;
+    if (ret == 0) n_empty++;
+    if (ret > max_piece) max_piece = ret;
+  }
   CallD* c2 = &rec_calls[rec_n-1];    /* (a nested call cannot happen, but do not rely on `c` across the call) */
   c2->ret = ret;
   if (ret > 0) { c2->out = malloc((size_t)ret); memcpy(c2->out, ((struct String*)r->inner)->val + pos, (size_t)ret); }
@@ -588,7 +609,11 @@ static void run_P(OpD* op, size_t line, int claim_unchanged, int wide) {
   {
     const char* valS = ((struct String*)s2)->val; if (valS == NULL) valS = "";
     int same = excS == exc && (excS != NULL || posS == posW) && (((struct String*)s2)->val != NULL || rawW_n == 0) && memcmp(valS, rawW, rawW_n) == 0 && (n_acc > 0 || strlen(valS) == rawW_n);
-    if (same) O("S exc=%s pos=%s str=%s", v_exc_name(excS), posbuf, (char*)hx.p);
+    long capS = block_size(((struct String*)s2)->val) - ptr_extra; n_cap++;
+    /* direct oracle on the block: it holds the text and its terminator (ASan reports a write beyond it; a block that is too large is only a difference from the model) */
+    if (((struct String*)s2)->val != NULL && n_acc > 0 && tiled && block_size(((struct String*)s2)->val) < (long)end + 1)
+      X("sig=%s line=%zu what=String block has %ld bytes, the text ends at %d and needs its terminator", SIG("fmt-output"), line, block_size(((struct String*)s2)->val), end);
+    if (same) O("S exc=%s pos=%s str=%s cap=%ld", v_exc_name(excS), posbuf, (char*)hx.p, capS);
     else {
       Buf a = {0}; buf_reset(&a); size_t l2 = strlen(valS); hex_of((unsigned char*)valS, l2, &a);
       O("S exc=%s pos=%d raw=%s", v_exc_name(excS), posS, (char*)a.p);
@@ -905,6 +930,7 @@ int main(int argc, char** argv) {
     } else O("bad-op");
     free(tok); free(copy);
   }
-  I("ops=%zu specs=%zu toofew=%zu show=%zu whole=%zu rejected=%zu typeshow=%zu", n_ops, n_spec, n_toofew, n_show, n_whole, n_rej, n_typeshow);
+  I("ops=%zu specs=%zu toofew=%zu show=%zu whole=%zu rejected=%zu typeshow=%zu grow=%zu shrink=%zu keep=%zu emptypiece=%zu capchecked=%zu", n_ops, n_spec, n_toofew, n_show, n_whole, n_rej, n_typeshow, n_grow, n_shrink, n_keep, n_empty, n_cap);
+  I("maxpiece=%ld", max_piece);
   return 0;
 }
